@@ -117,6 +117,48 @@ def fe64_unop(fname, sig, op, in_hi=LOOSE, out_hi=TIGHT, mutref=False):
     return spec
 
 
+def fe64_to_packed(in_hi):
+    """to_packed: four 64-bit words whose little-endian value is the CANONICAL representative: == value (mod p) and < p"""
+    def spec(I, R):
+        a = fe_in(I, "a", in_hi)
+        va = val(fe_limbs(a), 51)
+        f = I.find_fn_re(FE64 + r"to_packed\(_1: &fe64::Fe\)")
+        out = I.run(f, [ref(a)])
+        w = out.f
+        for i in range(4):
+            R.range(w[i].p, 0, (1 << 64) - 1, "to_packed: word %d is a u64" % i)
+        v = val(w, 64)
+        R.congruent(v, va, P25519, "to_packed: value == input (mod 2^255-19)")
+        R.range(v, 0, P25519 - 1, "to_packed: canonical (0 <= value < 2^255-19; bit 255 clear)")
+    return spec
+
+
+def fe64_from_bytes(I, R):
+    """from_bytes: limbs < 2^51, value == little-endian value of the 32 bytes with bit 255 ignored"""
+    # bytes straddling a 51-bit limb boundary are split into bit fields: bit 51 = byte 6 bit 3, 102 = byte 12 bit 6, 153 = byte 19 bit 1, 204 = byte 25 bit 4, 255 = byte 31 bit 7
+    split = {6: 3, 12: 6, 19: 1, 25: 4, 31: 7}
+    bs, v = [], Poly()
+    for j in range(32):
+        if j in split:
+            lo = I.input("s%dl" % j, "u8", 0, (1 << split[j]) - 1)
+            hi = I.input("s%dh" % j, "u8", 0, (1 << (8 - split[j])) - 1)
+            b = IntV(lo.p + hi.p.scale(1 << split[j]), "u8")
+            if j == 31:
+                v = v + lo.p.scale(1 << 248)          # bit 255 (the high field of byte 31) is ignored
+            else:
+                v = v + b.p.scale(1 << (8 * j))
+        else:
+            b = I.input("s%d" % j, "u8", 0, 255)
+            v = v + b.p.scale(1 << (8 * j))
+        bs.append(b)
+    f = I.find_fn_re(FE64 + r"from_bytes\(_1: &\[u8; 32\]\)")
+    out = I.run(f, [ref(AggV(bs))])
+    o = fe_limbs(out)
+    for i in range(5):
+        R.range(o[i].p, 0, T51, "from_bytes: limb %d < 2^51" % i)
+    R.equal(val(o, 51), v, "from_bytes: value == le256(bytes) mod 2^255 (bit 255 ignored)")
+
+
 SPECS = {
     "poly1305_block": dict(prop=["C05", "C20"], fn=poly1305_block(False), desc="Poly1305::block, full block (hibit set)"),
     "poly1305_block_final": dict(prop=["C05", "C20"], fn=poly1305_block(True), desc="Poly1305::block, final partial block (hibit clear)"),
@@ -127,5 +169,7 @@ SPECS = {
     "fe64_negate_mut": dict(prop=["C15", "C20"], cfg="fe64", fn=fe64_unop("negate_mut", r"\(_1: &mut fe64::Fe\)", "neg", mutref=True), desc="Fe::negate_mut"),
     "fe64_square": dict(prop=["C15", "C12", "C20"], cfg="fe64", fn=fe64_unop("square", r"\(_1: &fe64::Fe\)", "square"), desc="Fe::square"),
     "fe64_square_and_double": dict(prop=["C15", "C20"], cfg="fe64", fn=fe64_unop("square_and_double", r"\(_1: &fe64::Fe\)", "square2", out_hi=2 * TIGHT), desc="Fe::square_and_double"),
+    "fe64_to_packed": dict(prop=["C15", "C12", "C20"], cfg="fe64", fn=fe64_to_packed(LOOSE), desc="Fe::to_packed (canonical encoding) for every limb vector in class LOOSE"),
+    "fe64_from_bytes": dict(prop=["C15", "C12", "C20"], cfg="fe64", fn=fe64_from_bytes, desc="Fe::from_bytes"),
     "fe64_mul_small_121666": dict(prop=["C15", "C12", "C20"], cfg="fe64", fn=fe64_unop("mul_small", r"\(_1: &fe64::Fe\)", "mul121666"), desc="Fe::mul_small::<121666>", generic={"S0": (121666, "u32")}),
 }
